@@ -26,11 +26,19 @@ MANIFEST = {
             "first, byte encoding, batchdb read semantics (differential runs on batchdb over pebble); the level-by-level loops of "
             "calculateSubTree (temp-holder queue) and treeHasher are transcribed on the flat lists (SMT/LayeredFlat.v) and PROVED "
             "equal to the tree-recursive norm/shash used by the model (C10_layered_calculateSubTree_is_norm, _treeHasher_is_shash), "
-            "and the variant of the model calling them is cross-run on every dump. PROOF clauses: smt.Verify is modelled "
+            "and the variant of the model calling them is PROVED equal to the model (C10_layered_update_flat_is_layered). The sub-tree "
+            "byte encoding is a Gallina codec (SMT/LayeredCodec.v) with a PROVED round trip under explicit side conditions (1..256 "
+            "bottom nodes, key length, 32-byte values and stub hashes) and is tied to subtree.go by the dumps, including two "
+            "scripted full 256-node sub-trees (length byte 255). trie.Prove THROUGH THE STORE is modelled (SMT/LayeredProve.v: "
+            "generateQueryProof reading sub-trees and recursing through stubs, then the same merge) and PROVED to return exactly "
+            "the proof of the reference-trie prover for every key list after every history (C10_layered_prove_refines), and is "
+            "compared with the real Prove on every proof case. PROOF clauses: smt.Verify is modelled "
             "faithfully (Verify+CalculateRoot byte level) and proved SOUND for any number of queries under an injective, domain-separated "
             "hash, end to end against the map (a non-empty value is in the map, an empty value or a different query key means the "
-            "requested key is absent); completeness is proved only for the canonical proof of one key (multi-key completeness of the Prove "
-            "model is partial). Verify/CalculateRoot/Prove models are tied to the Go code on every case: Go proofs must equal model proofs "
+            "requested key is absent); completeness is proved only for the canonical proof of one key; MULTI-KEY COMPLETENESS (a proof "
+            "generated for any set of query keys verifies) is NOT proved - missing: node-hash distinctness in a well-formed trie and "
+            "the lock-step simulation of calculateSiblingHashes with CalculateRoot's work list (docs/C10.md) - and rests on the test "
+            "(every honest multi-key proof must verify in Go and in the model). Verify/CalculateRoot/Prove models are tied to the Go code on every case: Go proofs must equal model proofs "
             "and verify in both, every tampered proof gets the same verdict in both and, if accepted, must state only true claims.",
     "note": "Trusted: Coq kernel + vm_compute, in-Coq SHA-256 (checked on FIPS vectors), Go harness and Python glue. The refinement "
             "theorems are about the layered Gallina model; its agreement with smt.go (bins, goroutine order, encoding) is "
@@ -76,6 +84,12 @@ def store_term(r):
     return "(%d, %d, [%s])" % (r["kl"], r.get("sh") or 8, "; ".join(steps))
 
 
+def lprove_term(r):
+    """trie.Prove through the store: (key length, sub-tree height, batches, query keys, implementation sibling hashes, queries)"""
+    return "(%d, %d, %s, %s, %s, %s)" % (r["kl"], r.get("sh") or 8, batches(r["batches"]), clist(r["keys"], hb), clist(r["sibs"], hb),
+                                      clist(r["qs"], wq))
+
+
 def balance(rs, cost, shard):
     """reorder so that the contiguous shards cut by coq_eval get an even mix of cheap and expensive cases"""
     rs = sorted(rs, key=cost, reverse=True)
@@ -89,6 +103,13 @@ def balance(rs, cost, shard):
 def evaluate(ck, recs):
     roots = [r for r in recs if r["k"] == "root"]
     proofs = [r for r in recs if r["k"] == "proof"]
+    # behaviour outside the declared assumptions (documented, never a violation)
+    notes = [r for r in recs if r["k"] == "note"]
+    if notes:
+        ck.extra["outside_assumptions_observed"] = [
+            "%s: update=%s prove=%s verify=%s" % (x["what"], x["upderr"] or x["updpanic"] or "ok", x["proveerr"] or x["provepanic"] or "ok",
+                                                  {1: "true", 0: "false", 2: "error", -1: "-"}[x["verdict"]]) for x in notes]
+    recs = [r for r in recs if r["k"] in ("root", "proof")]
     for r in recs:
         if r.get("panic") or r.get("err"):
             ck.count()
@@ -125,6 +146,22 @@ def evaluate(ck, recs):
     rr = ck.coq_eval(IMPORTS, "root_case", "check_root", [root_term(r) for r in roots], shard=6, tag="root", timeout=1700)
     rp = ck.coq_eval(IMPORTS, "proof_case", "check_proof", [proof_term(r) for r in proofs], shard=3, tag="proof", timeout=1700)
     rs_ = ck.coq_eval(IMPORTS, "store_case", "check_store", [store_term(r) for r in stores], shard=3, tag="store", timeout=1700)
+    # trie.Prove through the store: the layered prover on the layered store must return the implementation's proof
+    lproofs = list(proofs) if ck.tier != "quick" else [r for i, r in enumerate(proofs) if i % 3 != 2 or r.get("sh")]
+    lproofs = balance(lproofs, lambda r: r["kl"] * (1 + len(r["keys"]) + 2 * sum(len(b) for b in r["batches"])), 6)
+    rl = ck.coq_eval(IMPORTS, "lprove_case", "check_lprove", [lprove_term(r) for r in lproofs], shard=6, tag="lprove", timeout=1700)
+    if rl is not None:
+        for r, code in zip(lproofs, rl):
+            ck.count()
+            ck.extra["store_provers_compared"] = ck.extra.get("store_provers_compared", 0) + 1
+            if code != 0:
+                f = dict(kind="input", key="c10:lprove:%s%s:model" % (r["gen"], ":subtree-height-%d" % r["sh"] if r.get("sh") else ""),
+                         what="smt Prove through the store (%s, key length %d, sub-tree height %d): the proof of the implementation differs "
+                              "from the layered prover (generateQueryProof model on the layered store) on %s" % (
+                                  r["gen"], r["kl"], r.get("sh") or 8, json.dumps({k: v for k, v in r.items() if k != "obs"})[:600]),
+                         case=r, theorem_or_correspondence="Corr.C10.check_lprove (SMT/LayeredProve.v) vs pkg/trie/smt Prove")
+                f["spec_violated"] = False
+                ck.failures.append(f)
     if rs_ is not None:
         for r, code in zip(stores, rs_):
             ck.count(len(r["stores"]))
@@ -206,7 +243,7 @@ def run(ck):
     if not binp:
         return
     if ck.tier == "quick":
-        args = ["-nroot", "28", "-nproof", "30", "-nev", "10", "-maxobs", "28", "-nfull", "2", "-fullkl", "4", "-ndump", "36"]
+        args = ["-nroot", "28", "-nproof", "30", "-nev", "10", "-maxobs", "28", "-nfull", "2", "-fullkl", "4", "-ndump", "28"]
     else:
         args = ["-nroot", "800", "-nproof", "800", "-nev", "200", "-maxobs", "60", "-nfull", "12", "-ndump", "400"]
     recs = corpus(ck, binp)
@@ -234,8 +271,15 @@ def run(ck):
                       "operations (layered model, tree and flat variants, vs real store: entries equal, reachable sub-trees present). "
                       "Evaluations = roots compared + verification observations + store dumps compared; distinct = by full input.")
     ck.extra["traces_validated_against_impl"] = len(recs)
-    ck.assume += ["SHA-256 has no collisions on the values met (hypothesis of the soundness theorems only)",
-                  "values are non-empty byte strings (the trie stores 32-byte value hashes; empty = delete)"]
+    ck.assume += ["SHA-256 has no collisions on the values met (hypothesis of the soundness and layered refinement theorems)",
+                  "values are 32-byte hashes or empty (= delete): Update accepts any value length, but a stored sub-tree with another "
+                  "value length cannot be decoded again (newSubTree mis-cuts / panics); callers: framework stateSMTBatch hashes every value; "
+                  "CalculateEventRoot stores raw encoded events but builds a one-shot in-memory trie that is never re-opened",
+                  "all keys of a trie have the trie's key length (keys_ok): a shorter key panics in getBinIndex inside an updateNode "
+                  "goroutine (process crash); callers build keys as 6-byte prefix + 32-byte hash (getTreeKey) or 8-byte topic hash + 4-byte "
+                  "index (events), never from unchecked external input",
+                  "a trie is re-opened with the SAME configuration: NewTrie resets the sub-tree height to 8, the layout is a property of "
+                  "the opener and is not stored; SetSubtreeHeight(4) is used by no non-test caller"]
     if ck.tier == "thorough":
         ck.coqchk(["LE.Properties.C10"])
 
